@@ -115,6 +115,10 @@ PostN(f, i, o) ==
      [] f = "mpn_sumdiff_n" -> /\ ZAdd(o.s, ZMul(ZFromInt(o.ret \div 2), Bn(i.n))) = ZAdd(i.a, i.b)
                                /\ ZSub(o.d, ZMul(ZFromInt(o.ret % 2), Bn(i.n))) = ZSub(i.a, i.b)
                                /\ Fits(o.s, i.n) /\ Fits(o.d, i.n)
+        \* nsumdiff_n.c / tests/refmpn.c: s = -(x+y) mod B^n, d = x-y mod B^n, ret = 2*(carry of the sum + borrow of the negation) + borrow of x-y
+     [] f = "mpn_nsumdiff_n" -> /\ ZSub(o.s, ZMul(ZFromInt(o.ret \div 2), Bn(i.n))) = ZNeg(ZAdd(i.a, i.b))
+                                /\ ZSub(o.d, ZMul(ZFromInt(o.ret % 2), Bn(i.n))) = ZSub(i.a, i.b)
+                                /\ Fits(o.s, i.n) /\ Fits(o.d, i.n) /\ o.ret \in 0..5
         \* ---- C01 single-limb multiplies
      [] f = "mpn_mul_1" -> ZAdd(o.r, ZMul(o.cy, Bn(i.n))) = ZMul(i.a, i.b) /\ Fits(o.r, i.n)
      [] f = "mpn_addmul_1" -> ZAdd(o.r, ZMul(o.cy, Bn(i.n))) = ZAdd(i.r0, ZMul(i.a, i.b)) /\ Fits(o.r, i.n)
